@@ -112,7 +112,7 @@ async fn proxy_conn(mut client: TcpStream, upstream: SocketAddr, ctl: Arc<ProxyC
     let mut s2c_left = ctl.s2c.lock().unwrap().take();
     ctl.c2s_count.store(0, Ordering::SeqCst);
     ctl.s2c_count.store(0, Ordering::SeqCst);
-    if c2s_left == Some(0) || s2c_left == Some(0) && false {
+    if c2s_left == Some(0) {
         // a zero client->server budget: accept and close without ever reaching the server
         return;
     }
@@ -370,7 +370,8 @@ fn generate(rng: &mut Rng, _i: u64, _n: u64) -> String {
         let cut = match rng.below(10) {
             0..=3 => "n".to_string(),
             4 => format!("c{}", -(rng.below(450) as i64)),        // inside the HTTP request / auth frame
-            5 | 6 => format!("c{}", 4 - rng.below(112) as i64),   // around and inside the ClientAuth frame
+            5 => format!("c{}", 1 - rng.below(3) as i64),          // exactly at / next to the end of the authentication
+            6 => format!("c{}", 4 - rng.below(112) as i64),   // around and inside the ClientAuth frame
             7 => format!("s{}", -(rng.below(200) as i64)),        // inside the 101 response / challenge
             _ => format!("s{}", 3 - rng.below(26) as i64),        // around challenge and confirmation
         };
